@@ -35,6 +35,9 @@
 #include <parmcb/forestindex.hpp>
 #include <parmcb/spvecgf2.hpp>
 #include <parmcb/util.hpp>
+#ifdef PARMCB_VERIF
+#include <parmcb/detail/verif_hooks.hpp>
+#endif
 
 namespace parmcb {
 
@@ -56,6 +59,10 @@ namespace parmcb {
             std::less<WeightType> compare = std::less<WeightType>();
             std::tuple<std::set<Edge>, WeightType, bool> best = std::make_tuple(std::set<Edge> { },
                     (std::numeric_limits<WeightType>::max)(), false);
+#ifdef PARMCB_VERIF
+            static std::size_t verif_calls = 0;
+            const std::size_t verif_phase = verif_calls++;
+#endif
             typedef std::tuple<std::set<Edge>, WeightType, bool> cycle_t;
             auto cycle_min = [compare](const cycle_t &c1, const cycle_t &c2) {
                 if (!std::get<2>(c1) || !std::get<2>(c2)) {
@@ -79,6 +86,10 @@ namespace parmcb {
                     auto se_u = boost::target(se, g);
                     auto res = bidirectional_signed_dijkstra(g, weight_map, std::set<Edge> { }, signed_edges, true,
                             se_v, true, se_u, true, std::get<2>(best), std::get<1>(best));
+#ifdef PARMCB_VERIF
+                    parmcb::verif::report_search(verif_phase, true, forest_index(se), signed_edges, forest_index,
+                            std::get<2>(best), std::get<1>(best), std::get<2>(res), std::get<1>(res), true);
+#endif
                     if (std::get<2>(res) && std::get<0>(res).find(se) == std::get<0>(res).end()) {
                         std::get<1>(res) += boost::get(weight_map, se);
                         if (!std::get<2>(best) || compare(std::get<1>(res), std::get<1>(best))) {
@@ -128,6 +139,11 @@ namespace parmcb {
                                 auto res = bidirectional_signed_dijkstra(g, weight_map, signed_edges, hidden_edges,
                                         true, se_v, true, se_u, true, std::get<2>(running_min),
                                         std::get<1>(running_min));
+#ifdef PARMCB_VERIF
+                                parmcb::verif::report_search(verif_phase, true, forest_index(se), hidden_edges,
+                                        forest_index, std::get<2>(running_min), std::get<1>(running_min),
+                                        std::get<2>(res), std::get<1>(res));
+#endif
                                 if (std::get<2>(res) && std::get<0>(res).find(se) == std::get<0>(res).end()) {
                                     std::get<1>(res) += boost::get(weight_map, se);
                                     if (!std::get<2>(running_min)
@@ -176,6 +192,11 @@ namespace parmcb {
                                 auto res = bidirectional_signed_dijkstra(g, weight_map, signed_edges,
                                         std::set<Edge> { }, use_hidden_edges, v, true, v, false,
                                         std::get<2>(running_min), std::get<1>(running_min));
+#ifdef PARMCB_VERIF
+                                parmcb::verif::report_search(verif_phase, false, boost::get(boost::vertex_index, g, v),
+                                        std::set<Edge> { }, forest_index, std::get<2>(running_min),
+                                        std::get<1>(running_min), std::get<2>(res), std::get<1>(res));
+#endif
                                 if (std::get<2>(res)
                                         && (!std::get<2>(running_min)
                                                 || compare(std::get<1>(res), std::get<1>(running_min)))) {
